@@ -41,6 +41,9 @@ pub struct FCase {
     /// Empty / Pending steps after the last data byte of every range stream.
     #[serde(default)]
     pub tail: Vec<PStep>,
+    /// segments per data chunk of the entity's (non-contiguous) Data type
+    #[serde(default)]
+    pub segments: u8,
 }
 
 impl FCase {
@@ -83,6 +86,7 @@ impl FCase {
                 plan,
                 faults: if with_faults { self.faults.clone() } else { vec![] },
                 tail: self.tail.clone(),
+                segments: self.segments,
             },
             req,
         )
@@ -310,18 +314,25 @@ pub fn enumerate(len: u32, max_chunks: usize, extra_polls: &[usize], mut f: impl
             let mut faults: Vec<Option<Fault>> = vec![None];
             for i in 0..m {
                 for kind in [FaultKind::EndEarly, FaultKind::Error, FaultKind::ExtraByte] {
-                    faults.push(Some(Fault { call, chunk: i, kind }));
+                    faults.push(Some(Fault { call, chunk: i, kind, extra: 0 }));
+                }
+                // several surplus bytes: the chunk that overflows may then straddle the announced
+                // end and be followed by further (small) chunks
+                for extra in [2u32, 3] {
+                    faults.push(Some(Fault { call, chunk: i, kind: FaultKind::ExtraByte, extra }));
                 }
             }
             faults.push(Some(Fault {
                 call,
                 chunk: 0,
                 kind: FaultKind::ExtraChunk,
+                extra: 0,
             }));
             faults.push(Some(Fault {
                 call,
                 chunk: 0,
                 kind: FaultKind::ErrorAfterEnd,
+                extra: 0,
             }));
             for fault in faults {
                 let after_end = fault.map_or(true, |x| matches!(x.kind, FaultKind::ExtraChunk | FaultKind::ErrorAfterEnd));
@@ -337,14 +348,21 @@ pub fn enumerate(len: u32, max_chunks: usize, extra_polls: &[usize], mut f: impl
                             continue;
                         }
                         for &extra in extra_polls {
-                            f(FCase {
-                                shape,
-                                chunks: chunks.clone(),
-                                filler,
-                                faults: fault.into_iter().collect(),
-                                tail: tail.clone(),
-                                extra_polls: extra,
-                            });
+                            // contiguous chunks, and chunks handed over in two segments
+                            for segments in [1u8, 2] {
+                                if segments == 2 && (filler.is_some() || !tail.is_empty()) {
+                                    continue;
+                                }
+                                f(FCase {
+                                    shape,
+                                    chunks: chunks.clone(),
+                                    filler,
+                                    faults: fault.into_iter().collect(),
+                                    tail: tail.clone(),
+                                    extra_polls: extra,
+                                    segments,
+                                });
+                            }
                         }
                     }
                 }
@@ -359,13 +377,14 @@ pub fn random_strategy() -> BoxedStrategy<FCase> {
         prop_oneof![Just(Shape::Full), Just(Shape::Single), (2u8..=8).prop_map(Shape::Multi)],
         proptest::option::of((0u32..8, prop_oneof![Just(PStep::Pending), Just(PStep::Empty)])),
         proptest::collection::vec(
-            (0u32..8, 0u32..8, prop_oneof![Just(FaultKind::EndEarly), Just(FaultKind::Error), Just(FaultKind::ExtraByte), Just(FaultKind::ExtraChunk), Just(FaultKind::ErrorAfterEnd)]),
+            (0u32..8, 0u32..8, prop_oneof![Just(FaultKind::EndEarly), Just(FaultKind::Error), Just(FaultKind::ExtraByte), Just(FaultKind::ExtraChunk), Just(FaultKind::ErrorAfterEnd)], 0u32..4),
             0..3,
         ),
         0usize..=4,
         proptest::collection::vec(prop_oneof![Just(PStep::Pending), Just(PStep::Empty)], 0..3),
+        0u8..4,
     )
-        .prop_map(|(chunks, shape, filler, faults, extra_polls, tail)| {
+        .prop_map(|(chunks, shape, filler, faults, extra_polls, tail, segments)| {
             let parts = match shape {
                 Shape::Multi(n) => n as u32,
                 _ => 1,
@@ -373,10 +392,11 @@ pub fn random_strategy() -> BoxedStrategy<FCase> {
             let m = chunks.len() as u32;
             let mut fs: Vec<Fault> = faults
                 .into_iter()
-                .map(|(call, chunk, kind)| Fault {
+                .map(|(call, chunk, kind, extra)| Fault {
                     call: call % parts,
                     chunk: chunk % m,
                     kind,
+                    extra,
                 })
                 .collect();
             fs.sort_by_key(|f| f.call);
@@ -387,6 +407,7 @@ pub fn random_strategy() -> BoxedStrategy<FCase> {
                 chunks,
                 faults: fs,
                 tail,
+                segments,
                 extra_polls,
             }
         })
